@@ -147,7 +147,7 @@ fn main() {
     // a run restricted with --only is a debugging aid: it must not replace the evidence of the full check
     let evidence_path = arg_val(&args, "--evidence").map(|p| if only.is_some() { format!("{p}.partial") } else { p });
     let known = load_known(&arg_val(&args, "--known").unwrap_or_else(|| "/verif/known-findings.json".into()));
-    let budget: u64 = arg_val(&args, "--budget-s").and_then(|s| s.parse().ok()).unwrap_or(if tier == Tier::Quick { 240 } else { 3000 });
+    let budget: u64 = arg_val(&args, "--budget-s").and_then(|s| s.parse().ok()).unwrap_or(if tier == Tier::Quick { 480 } else { 3000 });
 
     let start = Instant::now();
     let mut scns = props::scenarios(&prop, tier);
